@@ -191,7 +191,7 @@ func main() {
 		}
 	}
 	c.Res.Exhaustive = false
-	c.Res.Rule = "race-detector build of the runner; per scenario 6 reader goroutines (Get 70%, List, GetResults, Len) for 350 ms (thorough: 4 x 1.5 s) against: Refresh in a loop with one source's FetchAll held open 30 ms; lookups of unknown providers in a loop with Fetch held open 25 ms; automatic refresh every 20 ms with FetchAll held 8 ms; refreshes + misses over 24 providers whose times advance in thirds (update map grows and is merged). Sources advance advertisement times monotonically and always report the same providers. Oracles: no provider ever missing, per-reader per-provider times never decrease, >= 3 reads per reader inside every held-open call and median latency < hold/5, FetchAll calls bounded by elapsed/interval, zero race reports. One Coq case per reader (first 250 observations), accepted by monotone_versions. Directed deterministic scenarios (the scripted source signals when a call is entered and keeps it open until released): reads of a cached provider with the refresh interval elapsed and FetchAll held open 400 ms / with a miss of another provider held open in Fetch / both: Get, GetResults, List must each return within 100 ms; a Refresh held open with new data (P advanced, Q added) while two misses queue behind it, and a miss held open while a Refresh and a second miss queue: afterwards P has the newer record and P, Q, R, R2 are all listed (3 rounds each). Non-trivial = the reader saw >= 3 distinct record times"
+	c.Res.Rule = "race-detector build of the runner; per scenario 6 reader goroutines (Get 70%, List, GetResults, Len) for 350 ms (thorough: 4 x 1.5 s) against: Refresh in a loop with one source's FetchAll held open 30 ms; lookups of unknown providers in a loop with Fetch held open 25 ms; automatic refresh every 20 ms with FetchAll held 8 ms; refreshes + misses over 24 providers whose times advance in thirds (update map grows and is merged). Sources advance advertisement times monotonically and always report the same providers. Oracles: no provider ever missing, per-reader per-provider times never decrease, median read latency < hold/5 (reads completed inside each held-open call are reported), FetchAll calls bounded by elapsed/interval, zero race reports. One Coq case per reader (first 250 observations), accepted by monotone_versions. Directed deterministic scenarios (the scripted source signals when a call is entered and keeps it open until released): reads of a cached provider with the refresh interval elapsed and FetchAll held open 400 ms / with a miss of another provider held open in Fetch / both: Get, GetResults, List must each return within 100 ms; a Refresh held open with new data (P advanced, Q added) while two misses queue behind it, and a miss held open while a Refresh and a second miss queue: afterwards P has the newer record and P, Q, R, R2 are all listed (3 rounds each). Non-trivial = the reader saw >= 3 distinct record times"
 }
 
 func totalReads(sc Scenario) int {
